@@ -26,7 +26,8 @@ def focus_for(prop):
         if not sc['faults'] and rng.random() < 0.7:
             sc['faults'].append({'site': 'req', 'op': rng.choice(['create_multipart_upload', 'upload_part', 'upload_part_copy',
                                                                    'complete_multipart_upload', 'head_object']),
-                                 'nth': rng.choice([0, 0, 1, 2]), 'when': rng.choice(['before', 'after'])})
+                                 'nth': rng.choice([0, 0, 1, 2]), 'when': rng.choice(['before', 'after']),
+                                 'exc_kind': rng.choice(['plain', 'plain', 'conn'])})
 
     def downloads(sc, rng):
         for t in sc['transfers']:
@@ -36,6 +37,20 @@ def focus_for(prop):
                 t.pop('source', None)
                 if t['dest'] == 'path':
                     t['previous'] = rng.choice([None, 5])
+        if rng.random() < 0.4:
+            # a slow disk: one file-system call (or a write to the destination stream) takes very long
+            # while requests, cancels and failures go on
+            sc['mode'] = 'stall'
+            sc['stall'] = {'class': rng.choice(['fs', 'fs', 'dest-write']), 'nth': rng.choice([0, 0, 1, 2, 3]),
+                           'len': rng.choice([40, 100, 400])}
+            if rng.random() < 0.7:
+                for t in sc['transfers']:
+                    if t['kind'] == 'download' and rng.random() < 0.7:
+                        t['size'] = max(t['size'], rng.choice([8, 11, 13]))
+                sc['cfg']['multipart_threshold'] = rng.choice([1, 4, 6])
+            if sc['cancel'] is None and not sc['faults'] and rng.random() < 0.8:
+                sc['cancel'] = {'kind': 'future', 'transfer': rng.randrange(len(sc['transfers'])),
+                                'after_steps': rng.choice([5, 10, 20, 30, 40, 60, 80, 120])}
 
     def reentrant(sc, rng):
         for t in sc['transfers']:
@@ -60,6 +75,19 @@ def focus_for(prop):
                 sc['cancel'] = {'kind': 'exit-exc', 'exc': rng.choice(['value', 'interrupt', 'empty-msg']), 'after_steps': rng.choice([0, 2, 10, 40])}
             else:
                 sc['cancel'] = {'kind': 'interrupt-result', 'nth_wait': rng.choice([0, 0, 1])}
+        if rng.random() < 0.3:
+            # a slow file-system call / stream write / request while the cancel arrives
+            sc['mode'] = 'stall'
+            sc['stall'] = {'class': rng.choice(['fs', 'fs', 'dest-write', 'req-end', 'body-read', 'src-read']),
+                           'nth': rng.choice([0, 0, 1, 2, 3]), 'len': rng.choice([40, 100, 400])}
+            if rng.random() < 0.6:
+                for t in sc['transfers']:
+                    if t['kind'] == 'download':
+                        t['size'] = max(t['size'], rng.choice([8, 11, 13]))
+                        if rng.random() < 0.6:
+                            t['dest'] = 'path'
+                            t.setdefault('previous', None)
+                sc['cfg']['multipart_threshold'] = rng.choice([1, 4, 6])
 
     def streams(sc, rng):
         for t in sc['transfers']:
@@ -81,6 +109,19 @@ def focus_for(prop):
             sc['faults'] = []
             sc['cancel'] = None
 
+    def callbacks(sc, rng):
+        # several requests of one transfer in flight when it fails or is cancelled, a subscriber watching
+        multipart(sc, rng)
+        for t in sc['transfers']:
+            if not t['subscribers']:
+                t['subscribers'] = [{'id': 0}]
+        sc['cfg']['max_request_concurrency'] = rng.choice([2, 2, 3])
+        sc['cfg']['max_request_queue_size'] = rng.choice([1, 2, 3])
+        sc['faults'] = [f for f in sc['faults'] if f.get('site') == 'req']
+        if rng.random() < 0.8:
+            sc['faults'].append({'site': 'req', 'op': rng.choice(['upload_part', 'upload_part_copy']),
+                                 'nth': rng.choice([0, 1, 1, 2]), 'when': rng.choice(['before', 'after'])})
+
     def barrier(sc, rng):
         # shutdown() without cancel entered while several transfers are in flight, some failing
         if sc['cancel'] is None or rng.random() < 0.5:
@@ -88,7 +129,7 @@ def focus_for(prop):
             sc['early_shutdown'] = rng.choice([0, 0, 1, 2, 5, 10, 25])
             sc['fresh_after'] = False
 
-    return {'C03': None, 'C04': reentrant, 'C05': multipart, 'C06': downloads, 'C07': cancels, 'C08': None,
+    return {'C03': None, 'C04': reentrant, 'C05': multipart, 'C06': downloads, 'C07': cancels, 'C08': callbacks,
             'C09': None, 'C10': streams, 'C11': streams, 'C12': None, 'C18': barrier, 'C01': multipart, 'C02': downloads}.get(prop)
 
 
